@@ -268,7 +268,7 @@ theorem pStr_strBytes (c : Cfg) (k : Str) (s : Bytes) (hk : k.wf = true) :
   · next h =>
     simp only [Bool.and_eq_true, Bool.not_eq_true'] at h
     have hw : k.cs.all (fun c => !mustEscape c) = true := by
-      simp only [Str.wf, h.2, Bool.false_or] at hk; exact hk
+      simp only [Str.wf, h.1.2, Bool.false_or] at hk; exact hk
     exact ⟨false, rfl, by simpa using pStr_rawBody k.cs s hw⟩
   · obtain ⟨e, he⟩ := pStr_escBody c.ascii k.cs s
     exact ⟨e, rfl, by simpa using he⟩
@@ -324,7 +324,7 @@ theorem render_cons (c : Cfg) (hf : FmtOK c) (lvl : Nat) (v : V) (hv : v.wf = tr
     have := numChar_facts b h2
     exact ⟨b, t, by simp [render, h1], numChar_not_ws b h2, this.2.2.2.2.2.2.1, this.2.2.2.2.2.2.2⟩
   | str s =>
-    by_cases hh : (!c.ascii && !s.esc) = true
+    by_cases hh : (!c.ascii && !s.esc && !hasDel s.cs) = true
     · exact ⟨0x22, rawBody s.cs ++ [0x22], by simp only [render, strBytes, hh, if_true], by decide, by decide, by decide⟩
     · exact ⟨0x22, escBody c.ascii s.cs ++ [0x22], by simp only [render, strBytes, hh]; rfl, by decide, by decide, by decide⟩
   | arr xs =>
@@ -1409,5 +1409,410 @@ theorem spaces_ws (n : Nat) : (spaces n).all isWs = true := by
   induction n with
   | zero => rfl
   | succ n ih => simpa [spaces, isWs] using ih
+
+
+/-! ## materialisation does not change the printed bytes (C27) -/
+
+
+theorem escChar_plain (c : Char) (h1 : mustEscape c = false) (h2 : (c.toNat == 0x7f) = false) :
+    escChar false c = utf8Enc c := by
+  simp only [mustEscape, Bool.or_eq_false_iff, decide_eq_false_iff_not] at h1
+  have h3 : ¬ c.toNat = 0x7f := by simpa using h2
+  obtain ⟨⟨a, b⟩, d⟩ := h1
+  unfold escChar
+  dsimp only
+  rw [if_neg (by omega), if_neg (by omega), if_neg (by omega), if_neg (by omega), if_neg (by omega),
+    if_neg (by omega), if_neg (by omega), if_neg (by omega), if_neg (by simp)]
+
+theorem escBody_plain (cs : List Char) (h1 : cs.all (fun c => !mustEscape c) = true) (h2 : hasDel cs = false) :
+    escBody false cs = rawBody cs := by
+  induction cs with
+  | nil => rfl
+  | cons c cs ih =>
+    simp only [List.all_cons, Bool.and_eq_true, Bool.not_eq_true'] at h1
+    simp only [hasDel, List.any_cons, Bool.or_eq_false_iff] at h2
+    simp only [escBody, rawBody, escChar_plain c h1.1 h2.1]
+    rw [ih h1.2 (by simpa [hasDel] using h2.2)]
+
+/-- a string prints the same whether or not its source spelling is remembered -/
+theorem strBytes_owned (c : Cfg) (k : Str) (hk : k.wf = true) : strBytes c ⟨k.cs, true⟩ = strBytes c k := by
+  unfold strBytes
+  by_cases h : (!c.ascii && !k.esc && !hasDel k.cs) = true
+  · simp only [Bool.and_eq_true, Bool.not_eq_true'] at h
+    have hw : k.cs.all (fun c => !mustEscape c) = true := by
+      simp only [Str.wf, h.1.2, Bool.false_or] at hk; exact hk
+    simp [h.1.1, h.1.2, h.2, escBody_plain k.cs hw h.2]
+  · have : (!c.ascii && !true && !hasDel k.cs) = false := by simp
+    simp only [this, h]
+
+mutual
+  theorem render_owned (c : Cfg) : ∀ (w : V) (lvl : Nat), w.wf = true → render c lvl (owned w) = render c lvl w
+    | .null, _, _ => rfl
+    | .bool _, _, _ => rfl
+    | .num _, _, _ => rfl
+    | .str s, _, h => by simpa [owned, render] using strBytes_owned c s (by simpa [V.wf] using h)
+    | .arr [], _, _ => rfl
+    | .obj [], _, _ => rfl
+    | .arr (x :: xs), lvl, h => by
+      have hwf : x.wf = true ∧ wfList xs = true := by simpa [V.wf, wfList] using h
+      simp only [owned, ownedList, render, render_owned c x (lvl + 1) hwf.1, renderRest_owned c xs (lvl + 1) hwf.2]
+    | .obj ((k, x) :: fs), lvl, h => by
+      have hwf : (k.wf = true ∧ x.wf = true) ∧ wfFields fs = true := by simpa [V.wf, wfFields] using h
+      simp only [owned, ownedFields, render, render_owned c x (lvl + 1) hwf.1.2,
+        renderFields_owned c fs (lvl + 1) hwf.2, strBytes_owned c k hwf.1.1]
+  theorem renderRest_owned (c : Cfg) : ∀ (xs : List V) (lvl : Nat), wfList xs = true →
+      renderRest c lvl (ownedList xs) = renderRest c lvl xs
+    | [], _, _ => rfl
+    | x :: xs, lvl, h => by
+      have hwf : x.wf = true ∧ wfList xs = true := by simpa [wfList] using h
+      simp only [ownedList, renderRest, render_owned c x lvl hwf.1, renderRest_owned c xs lvl hwf.2]
+  theorem renderFields_owned (c : Cfg) : ∀ (fs : List (Str × V)) (lvl : Nat), wfFields fs = true →
+      renderFields c lvl (ownedFields fs) = renderFields c lvl fs
+    | [], _, _ => rfl
+    | (k, x) :: fs, lvl, h => by
+      have hwf : (k.wf = true ∧ x.wf = true) ∧ wfFields fs = true := by simpa [wfFields] using h
+      simp only [ownedFields, renderFields, render_owned c x lvl hwf.1.2, renderFields_owned c fs lvl hwf.2,
+        strBytes_owned c k hwf.1.1]
+end
+
+
+
+/-! ## the reader: well-formed results, locality, fuel monotonicity -/
+
+theorem consC_ok (c : Char) (esc : Bool) (x : Except Err (List Char × Bool × Bytes)) (cs : List Char) (e : Bool) (r : Bytes)
+    (h : consC c esc x = .ok (cs, e, r)) : ∃ cs' e', x = .ok (cs', e', r) ∧ cs = c :: cs' ∧ e = (esc || e') := by
+  cases x with
+  | error err => simp [consC] at h
+  | ok v =>
+    obtain ⟨cs', e', r'⟩ := v
+    simp only [consC, Except.ok.injEq, Prod.mk.injEq] at h
+    exact ⟨cs', e', by rw [h.2.2], h.1.symm, h.2.1.symm⟩
+
+theorem toNat_ofNat_valid (n : Nat) (h : n < 0xD800 ∨ (0xE000 ≤ n ∧ n < 0x110000)) : (Char.ofNat n).toNat = n := by
+  have hv : n.isValidChar := by simp only [Nat.isValidChar]; omega
+  simp [Char.ofNat, hv, Char.ofNatAux, Char.toNat]
+
+theorem not_mustEscape_ofNat (n : Nat) (hv : n < 0xD800 ∨ (0xE000 ≤ n ∧ n < 0x110000))
+    (h : 0x20 ≤ n ∧ n ≠ 0x22 ∧ n ≠ 0x5c) : mustEscape (Char.ofNat n) = false := by
+  simp only [mustEscape, toNat_ofNat_valid n hv, Bool.or_eq_false_iff, decide_eq_false_iff_not]
+  omega
+
+theorem pStr_raw_safe (s : Bytes) : ∀ cs e r, pStr s = .ok (cs, e, r) → e = false → cs.all (fun c => !mustEscape c) = true := by
+  fun_induction pStr s <;> intro cs e r h he
+  all_goals first
+    | (simp at h; done)
+    | (simp only [Except.ok.injEq, Prod.mk.injEq] at h; obtain ⟨h1, _, _⟩ := h; subst h1; rfl)
+    | (obtain ⟨cs', e', _, _, h3⟩ := consC_ok _ true _ _ _ _ h; simp [he] at h3; done)
+    | skip
+  all_goals
+    rename_i ih
+    obtain ⟨cs', e', h1, h2, h3⟩ := consC_ok _ _ _ _ _ _ h
+    subst h2
+    have he' : e' = false := by simpa [he] using h3.symm
+    simp only [List.all_cons, Bool.and_eq_true, Bool.not_eq_true']
+    refine ⟨?_, ih _ _ _ h1 he'⟩
+    clear h h1 ih
+    try simp only [isContN, Bool.and_eq_true, decide_eq_true_eq, Bool.not_eq_true', Bool.and_eq_false_iff,
+      decide_eq_false_iff_not] at *
+    apply not_mustEscape_ofNat <;> omega
+
+
+theorem str_wf_of_pStr (s : Bytes) (cs : List Char) (e : Bool) (r : Bytes) (h : pStr s = .ok (cs, e, r)) :
+    Str.wf ⟨cs, true && e⟩ = true := by
+  cases e with
+  | true => simp [Str.wf]
+  | false => simpa [Str.wf] using pStr_raw_safe s cs false r h rfl
+
+theorem p_wf : ∀ f : Nat,
+    (∀ s v r, pValue true f s = .ok (v, r) → v.wf = true) ∧
+    (∀ s xs r, pRest true f s = .ok (xs, r) → wfList xs = true) ∧
+    (∀ s kx r, pField true f s = .ok (kx, r) → kx.1.wf = true ∧ kx.2.wf = true) ∧
+    (∀ s fs r, pFields true f s = .ok (fs, r) → wfFields fs = true) := by
+  intro f
+  induction f with
+  | zero =>
+    refine ⟨?_, ?_, ?_, ?_⟩ <;> intro s a r h
+    · rw [pValue.eq_def] at h; simp at h
+    · rw [pRest.eq_def] at h; simp at h
+    · rw [pField.eq_def] at h; simp at h
+    · rw [pFields.eq_def] at h; simp at h
+  | succ f ih =>
+    obtain ⟨ihV, ihR, ihF, ihFs⟩ := ih
+    refine ⟨?_, ?_, ?_, ?_⟩
+    · intro s v r h
+      rw [pValue.eq_def] at h
+      repeat' split at h
+      all_goals try (simp at h; done)
+      all_goals simp only [Except.ok.injEq, Prod.mk.injEq] at h
+      all_goals obtain ⟨hv, _⟩ := h
+      all_goals subst hv
+      all_goals have hf := Nat.succ.inj ‹f + 1 = Nat.succ _›
+      all_goals subst hf
+      all_goals first
+        | rfl
+        | (simp only [V.wf, wfList, Bool.and_eq_true]
+           exact ⟨ihV _ _ _ ‹pValue true _ _ = .ok _›, ihR _ _ _ ‹pRest true _ _ = .ok _›⟩)
+        | (rename_i kx _ _ _ _ _ _
+           have h1 := ihF _ _ _ ‹pField true _ _ = .ok _›
+           have h2 := ihFs _ _ _ ‹pFields true _ _ = .ok _›
+           revert h1
+           cases ‹Str × V› with
+           | mk k x => intro h1; simp only [V.wf, wfFields, Bool.and_eq_true]; exact ⟨h1, h2⟩)
+        | (simp only [V.wf]; exact str_wf_of_pStr _ _ _ _ ‹pStr _ = .ok _›)
+        | (simp only [V.wf]; assumption)
+    · intro s xs r h
+      rw [pRest.eq_def] at h
+      repeat' split at h
+      all_goals try (simp at h; done)
+      all_goals simp only [Except.ok.injEq, Prod.mk.injEq] at h
+      all_goals obtain ⟨hv, _⟩ := h
+      all_goals subst hv
+      all_goals have hf := Nat.succ.inj ‹f + 1 = Nat.succ _›
+      all_goals subst hf
+      all_goals first
+        | rfl
+        | (simp only [wfList, Bool.and_eq_true]
+           exact ⟨ihV _ _ _ ‹pValue true _ _ = .ok _›, ihR _ _ _ ‹pRest true _ _ = .ok _›⟩)
+    · intro s kx r h
+      rw [pField.eq_def] at h
+      repeat' split at h
+      all_goals try (simp at h; done)
+      all_goals simp only [Except.ok.injEq, Prod.mk.injEq] at h
+      all_goals obtain ⟨hv, _⟩ := h
+      all_goals subst hv
+      all_goals have hf := Nat.succ.inj ‹f + 1 = Nat.succ _›
+      all_goals subst hf
+      all_goals exact ⟨str_wf_of_pStr _ _ _ _ ‹pStr _ = .ok _›, ihV _ _ _ ‹pValue true _ _ = .ok _›⟩
+    · intro s fs r h
+      rw [pFields.eq_def] at h
+      repeat' split at h
+      all_goals try (simp at h; done)
+      all_goals simp only [Except.ok.injEq, Prod.mk.injEq] at h
+      all_goals obtain ⟨hv, _⟩ := h
+      all_goals subst hv
+      all_goals have hf := Nat.succ.inj ‹f + 1 = Nat.succ _›
+      all_goals subst hf
+      all_goals first
+        | rfl
+        | (have h1 := ihF _ _ _ ‹pField true _ _ = .ok _›
+           have h2 := ihFs _ _ _ ‹pFields true _ _ = .ok _›
+           revert h1
+           cases ‹Str × V› with
+           | mk k x => intro h1; simp only [wfFields, Bool.and_eq_true]; exact ⟨h1, h2⟩)
+
+/-- the reader of input documents only produces well-formed values -/
+theorem readSrc_wf (t : Bytes) (v : V) (h : readSrc t = .ok v) : v.wf = true := by
+  unfold readSrc readWith at h
+  split at h
+  · simp at h
+  · next v' r hp =>
+    split at h
+    · simp only [Except.ok.injEq] at h; subst h; exact (p_wf _).1 _ _ _ hp
+    · simp at h
+
+
+/-! ### locality of the reader: appending text after a successfully read prefix -/
+
+theorem skipWs_append_cons (s : Bytes) (b : UInt8) (s' t : Bytes) (h : skipWs s = b :: s') :
+    skipWs (s ++ t) = b :: (s' ++ t) := by
+  induction s with
+  | nil => simp [skipWs] at h
+  | cons a s ih =>
+    simp only [skipWs] at h
+    simp only [List.cons_append, skipWs]
+    split
+    · next hw => rw [if_pos hw] at h; exact ih h
+    · next hw => rw [if_neg hw] at h; simp only [List.cons.injEq] at h; rw [h.1, h.2]
+
+theorem takeNum_append_tail (s t : Bytes) (ht : TailOK t) :
+    takeNum (s ++ t) = takeNum s ∧ dropNum (s ++ t) = dropNum s ++ t := by
+  induction s with
+  | nil =>
+    cases t with
+    | nil => simp [takeNum, dropNum]
+    | cons b t' => simp [takeNum, dropNum, ht b t' rfl]
+  | cons a s ih =>
+    simp only [List.cons_append, takeNum, dropNum]
+    split
+    · exact ⟨by rw [ih.1], ih.2⟩
+    · exact ⟨rfl, rfl⟩
+
+theorem consC_append (c : Char) (esc : Bool) (x y : Except Err (List Char × Bool × Bytes)) (t : Bytes)
+    (hxy : ∀ cs e r, x = .ok (cs, e, r) → y = .ok (cs, e, r ++ t))
+    (cs : List Char) (e : Bool) (r : Bytes) (h : consC c esc x = .ok (cs, e, r)) :
+    consC c esc y = .ok (cs, e, r ++ t) := by
+  obtain ⟨cs', e', h1, h2, h3⟩ := consC_ok c esc x cs e r h
+  rw [hxy cs' e' r h1, h2, h3]; rfl
+
+theorem pStr_append (s : Bytes) : ∀ cs e r t, pStr s = .ok (cs, e, r) → pStr (s ++ t) = .ok (cs, e, r ++ t) := by
+  fun_induction pStr s <;> intro cs e r t h
+  all_goals try (simp at h; done)
+  all_goals rw [pStr.eq_def]
+  all_goals simp +zetaDelta only [List.cons_append, *, ↓reduceIte, and_self, Bool.true_and, Bool.and_self, if_true]
+  all_goals first
+    | (simp only [Except.ok.injEq, Prod.mk.injEq] at h ⊢
+       obtain ⟨h1, h2, h3⟩ := h; subst h1 h2 h3; exact ⟨rfl, rfl, rfl⟩)
+    | (rename_i ih; exact consC_append _ _ _ _ t (fun cs e r hh => ih cs e r t hh) cs e r h)
+    | skip
+
+
+theorem takeNum_cons_append (b : UInt8) (s t : Bytes) (ht : TailOK t) :
+    takeNum (b :: (s ++ t)) = takeNum (b :: s) := (takeNum_append_tail (b :: s) t ht).1
+theorem dropNum_cons_append (b : UInt8) (s t : Bytes) (ht : TailOK t) :
+    dropNum (b :: (s ++ t)) = dropNum (b :: s) ++ t := (takeNum_append_tail (b :: s) t ht).2
+
+theorem skipWs_append_ne (s t : Bytes) (h : skipWs s ≠ []) : skipWs (s ++ t) = skipWs s ++ t := by
+  cases hs : skipWs s with
+  | nil => exact absurd hs h
+  | cons b s' => rw [skipWs_append_cons s b s' t hs]; rfl
+
+theorem skipWs_append_pValue (keep : Bool) (f : Nat) (s : Bytes) (v : V) (r t : Bytes)
+    (h : pValue keep f (skipWs s) = .ok (v, r)) : skipWs (s ++ t) = skipWs s ++ t := by
+  apply skipWs_append_ne
+  intro e
+  rw [e, pValue.eq_def] at h
+  cases f <;> simp at h
+
+theorem skipWs_append_pField (keep : Bool) (f : Nat) (s : Bytes) (kx : Str × V) (r t : Bytes)
+    (h : pField keep f (skipWs s) = .ok (kx, r)) : skipWs (s ++ t) = skipWs s ++ t := by
+  apply skipWs_append_ne
+  intro e
+  rw [e, pField.eq_def] at h
+  cases f <;> simp at h
+
+theorem p_local (keep : Bool) : ∀ f : Nat,
+    (∀ s v r, pValue keep f s = .ok (v, r) → ∀ f' t, f ≤ f' → TailOK t → pValue keep f' (s ++ t) = .ok (v, r ++ t)) ∧
+    (∀ s xs r, pRest keep f s = .ok (xs, r) → ∀ f' t, f ≤ f' → TailOK t → pRest keep f' (s ++ t) = .ok (xs, r ++ t)) ∧
+    (∀ s kx r, pField keep f s = .ok (kx, r) → ∀ f' t, f ≤ f' → TailOK t → pField keep f' (s ++ t) = .ok (kx, r ++ t)) ∧
+    (∀ s fs r, pFields keep f s = .ok (fs, r) → ∀ f' t, f ≤ f' → TailOK t → pFields keep f' (s ++ t) = .ok (fs, r ++ t)) := by
+  intro f
+  induction f with
+  | zero =>
+    refine ⟨?_, ?_, ?_, ?_⟩ <;> intro s a r h
+    · rw [pValue.eq_def] at h; simp at h
+    · rw [pRest.eq_def] at h; simp at h
+    · rw [pField.eq_def] at h; simp at h
+    · rw [pFields.eq_def] at h; simp at h
+  | succ f ih =>
+    obtain ⟨ihV, ihR, ihF, ihFs⟩ := ih
+    refine ⟨?_, ?_, ?_, ?_⟩
+    · intro s v r h f' t hle ht
+      obtain ⟨g, rfl⟩ : ∃ g, f' = g + 1 := ⟨f' - 1, by omega⟩
+      have hg : f ≤ g := by omega
+      rw [pValue.eq_def] at h
+      repeat' split at h
+      all_goals try (simp at h; done)
+      all_goals simp only [Except.ok.injEq, Prod.mk.injEq] at h
+      all_goals obtain ⟨hv, hr⟩ := h
+      all_goals subst hv hr
+      all_goals have hf := Nat.succ.inj ‹f + 1 = Nat.succ _›
+      all_goals subst hf
+      all_goals rw [pValue.eq_def]
+      all_goals try have e1 := skipWs_append_cons _ _ _ t ‹skipWs _ = _ :: _›
+      all_goals try have e2 := ihV _ _ _ ‹pValue keep _ _ = .ok _› g t hg ht
+      all_goals try have e3 := ihR _ _ _ ‹pRest keep _ _ = .ok _› g t hg ht
+      all_goals try have e4 := ihF _ _ _ ‹pField keep _ _ = .ok _› g t hg ht
+      all_goals try have e5 := ihFs _ _ _ ‹pFields keep _ _ = .ok _› g t hg ht
+      all_goals try have e6 := pStr_append _ _ _ _ t ‹pStr _ = .ok _›
+      all_goals try have e8 := skipWs_append_pValue _ _ _ _ _ t ‹pValue keep _ (skipWs _) = .ok _›
+      all_goals try have e9 := skipWs_append_pField _ _ _ _ _ t ‹pField keep _ (skipWs _) = .ok _›
+      all_goals simp only [List.cons_append] at *
+      all_goals simp [*, takeNum_cons_append _ _ _ ht, dropNum_cons_append _ _ _ ht]
+    · intro s xs r h f' t hle ht
+      obtain ⟨g, rfl⟩ : ∃ g, f' = g + 1 := ⟨f' - 1, by omega⟩
+      have hg : f ≤ g := by omega
+      rw [pRest.eq_def] at h
+      repeat' split at h
+      all_goals try (simp at h; done)
+      all_goals simp only [Except.ok.injEq, Prod.mk.injEq] at h
+      all_goals obtain ⟨hv, hr⟩ := h
+      all_goals subst hv hr
+      all_goals have hf := Nat.succ.inj ‹f + 1 = Nat.succ _›
+      all_goals subst hf
+      all_goals rw [pRest.eq_def]
+      all_goals try have e1 := skipWs_append_cons _ _ _ t ‹skipWs _ = _ :: _›
+      all_goals try have e2 := ihV _ _ _ ‹pValue keep _ _ = .ok _› g t hg ht
+      all_goals try have e3 := ihR _ _ _ ‹pRest keep _ _ = .ok _› g t hg ht
+      all_goals try have e4 := ihF _ _ _ ‹pField keep _ _ = .ok _› g t hg ht
+      all_goals try have e5 := ihFs _ _ _ ‹pFields keep _ _ = .ok _› g t hg ht
+      all_goals try have e6 := pStr_append _ _ _ _ t ‹pStr _ = .ok _›
+      all_goals try have e8 := skipWs_append_pValue _ _ _ _ _ t ‹pValue keep _ (skipWs _) = .ok _›
+      all_goals try have e9 := skipWs_append_pField _ _ _ _ _ t ‹pField keep _ (skipWs _) = .ok _›
+      all_goals simp only [List.cons_append] at *
+      all_goals simp [*, takeNum_cons_append _ _ _ ht, dropNum_cons_append _ _ _ ht]
+    · intro s kx r h f' t hle ht
+      obtain ⟨g, rfl⟩ : ∃ g, f' = g + 1 := ⟨f' - 1, by omega⟩
+      have hg : f ≤ g := by omega
+      rw [pField.eq_def] at h
+      repeat' split at h
+      all_goals try (simp at h; done)
+      all_goals simp only [Except.ok.injEq, Prod.mk.injEq] at h
+      all_goals obtain ⟨hv, hr⟩ := h
+      all_goals subst hv hr
+      all_goals have hf := Nat.succ.inj ‹f + 1 = Nat.succ _›
+      all_goals subst hf
+      all_goals rw [pField.eq_def]
+      all_goals try have e1 := skipWs_append_cons _ _ _ t ‹skipWs _ = _ :: _›
+      all_goals try have e2 := ihV _ _ _ ‹pValue keep _ _ = .ok _› g t hg ht
+      all_goals try have e3 := ihR _ _ _ ‹pRest keep _ _ = .ok _› g t hg ht
+      all_goals try have e4 := ihF _ _ _ ‹pField keep _ _ = .ok _› g t hg ht
+      all_goals try have e5 := ihFs _ _ _ ‹pFields keep _ _ = .ok _› g t hg ht
+      all_goals try have e6 := pStr_append _ _ _ _ t ‹pStr _ = .ok _›
+      all_goals try have e8 := skipWs_append_pValue _ _ _ _ _ t ‹pValue keep _ (skipWs _) = .ok _›
+      all_goals try have e9 := skipWs_append_pField _ _ _ _ _ t ‹pField keep _ (skipWs _) = .ok _›
+      all_goals simp only [List.cons_append] at *
+      all_goals simp [*, takeNum_cons_append _ _ _ ht, dropNum_cons_append _ _ _ ht]
+    · intro s fs r h f' t hle ht
+      obtain ⟨g, rfl⟩ : ∃ g, f' = g + 1 := ⟨f' - 1, by omega⟩
+      have hg : f ≤ g := by omega
+      rw [pFields.eq_def] at h
+      repeat' split at h
+      all_goals try (simp at h; done)
+      all_goals simp only [Except.ok.injEq, Prod.mk.injEq] at h
+      all_goals obtain ⟨hv, hr⟩ := h
+      all_goals subst hv hr
+      all_goals have hf := Nat.succ.inj ‹f + 1 = Nat.succ _›
+      all_goals subst hf
+      all_goals rw [pFields.eq_def]
+      all_goals try have e1 := skipWs_append_cons _ _ _ t ‹skipWs _ = _ :: _›
+      all_goals try have e2 := ihV _ _ _ ‹pValue keep _ _ = .ok _› g t hg ht
+      all_goals try have e3 := ihR _ _ _ ‹pRest keep _ _ = .ok _› g t hg ht
+      all_goals try have e4 := ihF _ _ _ ‹pField keep _ _ = .ok _› g t hg ht
+      all_goals try have e5 := ihFs _ _ _ ‹pFields keep _ _ = .ok _› g t hg ht
+      all_goals try have e6 := pStr_append _ _ _ _ t ‹pStr _ = .ok _›
+      all_goals try have e8 := skipWs_append_pValue _ _ _ _ _ t ‹pValue keep _ (skipWs _) = .ok _›
+      all_goals try have e9 := skipWs_append_pField _ _ _ _ _ t ‹pField keep _ (skipWs _) = .ok _›
+      all_goals simp only [List.cons_append] at *
+      all_goals simp [*, takeNum_cons_append _ _ _ ht, dropNum_cons_append _ _ _ ht]
+
+
+theorem skipWs_append_of_nil (r w : Bytes) (h : skipWs r = []) : skipWs (r ++ w) = skipWs w := by
+  induction r with
+  | nil => rfl
+  | cons a r ih =>
+    simp only [skipWs] at h
+    simp only [List.cons_append, skipWs]
+    split
+    · next hw => rw [if_pos hw] at h; exact ih h
+    · next hw => rw [if_neg hw] at h; simp at h
+
+/-- appending whitespace to a text that reads does not change what it reads as -/
+theorem readWith_append_ws (keep : Bool) (s w : Bytes) (hw : w.all isWs = true) (v : V)
+    (h : readWith keep s = .ok v) : readWith keep (s ++ w) = .ok v := by
+  unfold readWith at h ⊢
+  split at h
+  · simp at h
+  · next v' r hp =>
+    split at h
+    · next hr =>
+      simp only [Except.ok.injEq] at h; subst h
+      have e1 := skipWs_append_pValue keep _ s v' r w hp
+      have e2 := (p_local keep _).1 _ _ _ hp ((s ++ w).length + 1) w
+        (by simp only [List.length_append]; omega) (tailOK_ws w hw)
+      rw [e1, e2]
+      have hr' : skipWs r = [] := by simpa using hr
+      simp [skipWs_append_of_nil r w hr', skipWs_all_ws w hw]
+    · simp at h
+
 
 end SV.JqOut
